@@ -152,6 +152,47 @@ def run(ctx):
             finally:
                 hw.close()
         rep.sample({"sysinfo2magic": reg["installed"][0]})
+        # 6. the lookups are functions of their argument, not of what was looked up before: one pass over distinct
+        #    magics in a fresh process is the reference; a second process answers a random sequence with immediate
+        #    repeats (known after unknown, unknown twice in a row, ...)
+        known = sorted(set(m for m, _ in tables["magicint2version"]))
+        unknown = [0, 1, 244, 48, 3000, 3439 + 7, 20000, 65535, 62061 + 1] + [rng.randrange(65536) for _ in range(20)]
+        pool = known + unknown
+        w1 = Worker()
+        try:
+            ref = {m: w1.r("magic_int2tuple", magic=m) for m in sorted(set(pool))}
+            refs = {s: w1.r("py_str2tuple", s=s) for s in sorted(set(cands[:80]))}
+        finally:
+            w1.close()
+        seq = []
+        for _ in range(300 if not ctx.thorough else 3000):
+            m = rng.choice(unknown) if rng.randrange(3) == 0 else rng.choice(known)
+            seq.append(m)
+            if rng.randrange(2):
+                seq.append(m)
+        w2 = Worker()
+        try:
+            hist = []
+            for m in seq:
+                got = w2.r("magic_int2tuple", magic=m)
+                hist.append(m)
+                rep.count(1, ("lookup-history", m))
+                if got != ref[m]:
+                    rep.violation("lookup-history:magic_int2tuple:%d" % m,
+                                  "magic_int2tuple(%d) = %s after the lookups %s in the same process, %s in a fresh one"
+                                  % (m, str(got)[:80], hist[-4:-1], str(ref[m])[:80]),
+                                  {"call": "magic_int2tuple", "history": hist[-50:], "actual": got, "expected": ref[m]})
+                    break
+            ss = [rng.choice(sorted(refs)) for _ in range(200)]
+            for i, s_ in enumerate(ss):
+                got = w2.r("py_str2tuple", s=s_)
+                if got != refs[s_]:
+                    rep.violation("lookup-history:py_str2tuple:%s" % s_, "py_str2tuple(%r) = %s after %s, %s in a fresh process"
+                                  % (s_, str(got)[:80], ss[max(0, i - 3):i], str(refs[s_])[:80]),
+                                  {"call": "py_str2tuple", "history": ss[:i + 1], "actual": got, "expected": refs[s_]})
+                    break
+        finally:
+            w2.close()
         rep.coverage["exhaustive"] = True
     finally:
         w.close()
